@@ -515,13 +515,19 @@ def r07_2(F, R, box):
     rm = box.fn("remap", within="dukebox::remap::remap")
     rm = rm or next((b for b in box.bodies if b["path"] == "dukebox::remap::remap"), None)
     if R.anchor("R07.2", "fn dukebox::remap::remap", rm):
-        ins = [n for n in H.walk(rm["body"]) if n.get("k") == "mcall" and n["name"] == "insert"]
+        # the key under which an entry is stored: first argument of `entries.insert(k, v)` or first component of a `(k, v)` pair whose
+        # second component is the entry (pairs collected / extended into the entry map)
+        keys = [n["args"][0] for n in H.walk(rm["body"]) if n.get("k") == "mcall" and n["name"] == "insert" and len(n.get("args", [])) == 2]
+        keys += [n["es"][0] for n in H.walk(rm["body"]) if n.get("k") == "tuple" and len(n["es"]) == 2
+                 and "ParsedJarEntry" in (H.peel(n["es"][1]).get("ty") or "")]
         ok = False
-        if len(ins) == 1:
-            l = H.local_of(ins[0]["args"][0])
-            init = H.let_init_of(rm["body"], l[0]) if l else None
+        if len(keys) == 1:
+            k0 = H.peel(keys[0])
+            l = H.local_of(k0)
+            init = H.let_init_of(rm["body"], l[0]) if l else k0
             ok = init is not None and any(H.is_call(x, "remap_jar_entry_name") for x in H.walk(init))
-        R.inst("R07.2", "entry-stored-under-remapped-name", ok, sp=rm["sp"])
+        R.inst("R07.2", "entry-stored-under-remapped-name", ok, sp=rm["sp"], got="%d key site(s)" % len(keys),
+               detail="the key of the stored entry is the result of remap_jar_entry_name")
         cl = [n for n in H.walk(rm["body"]) if H.is_call(n, "remap_class")]
         ot = [n for n in H.walk(rm["body"]) if H.is_call(n, "remap_other")]
         R.inst("R07.2", "class-and-other-dispatch", len(cl) == 1 and len(ot) == 1, sp=rm["sp"])
